@@ -21,6 +21,7 @@ void c16_recv(char *p, unsigned short len);      /* supla_esp_mqtt_conn_recv_cb 
 void c16_sync(void);                             /* mqtt_sync(&client) */
 void c16_tick(void);                             /* first two statements of supla_esp_mqtt_iterate: sync + mq_clean */
 void c17_set_prefix(char *p, unsigned len);
+void c16_on_disconnect(void);                    /* supla_esp_mqtt_conn_on_disconnect */
 int c16_str2int(const char *s, unsigned short len, unsigned char *err);
 
 /* board double hooks */
